@@ -133,6 +133,34 @@ struct SeqEngine final : Engine {
       pool.assign(s.begin(), s.end());
     }
     if (pool.size() < 2) { std::string k = base; k[0] = static_cast<char>(k[0] ^ 1); pool.push_back(base); pool.push_back(k); }
+    // variable-length byte-string keys: every key is cut somewhere beyond the byte that tells it from its nearest
+    // neighbours, which keeps the pool prefix-free (the index's contract) while stored keys end at different depths
+    bool varlen = false, varbound = false;
+    if (keykind == 1 && L >= 2) {
+      Rng vr = stream(seed, S_WORKLOAD + 16);
+      varlen = vr.chance(0.35);
+      varbound = vr.chance(0.35);
+      if (getenv("SIM_NO_VARBOUND")) varbound = false;
+      if (varlen) {
+        std::sort(pool.begin(), pool.end());
+        pool.erase(std::unique(pool.begin(), pool.end()), pool.end());
+        auto lcp = [](const std::string& a, const std::string& b) { size_t i = 0; while (i < a.size() && i < b.size() && a[i] == b[i]) i++; return i; };
+        std::vector<size_t> minlen(pool.size(), 1);
+        for (size_t i = 0; i < pool.size(); i++) {
+          if (i > 0) minlen[i] = std::max(minlen[i], lcp(pool[i - 1], pool[i]) + 1);
+          if (i + 1 < pool.size()) minlen[i] = std::max(minlen[i], lcp(pool[i], pool[i + 1]) + 1);
+        }
+        for (size_t i = 0; i < pool.size(); i++) {
+          const size_t full = pool[i].size();
+          if (minlen[i] >= full) continue;
+          const auto x = vr.below(100);
+          const size_t len = x < 40 ? minlen[i] : (x < 65 ? full : minlen[i] + vr.below(full - minlen[i] + 1));
+          pool[i].resize(len);
+        }
+      }
+    }
+    c.set_knob("varlen", varlen ? 1 : 0);
+    c.set_knob("varbound", varbound ? 1 : 0);
     for (size_t i = pool.size(); i > 1; i--) std::swap(pool[i - 1], pool[r.below(i)]);
     // ---- history
     const int maxops = focus == 8 ? (cap > 70 ? 200 : 120) : (tier == "thorough" ? 400 : 250);
@@ -160,11 +188,20 @@ struct SeqEngine final : Engine {
       if (x < 50) return std::string(static_cast<size_t>(L), '\0');
       if (x < 60) return std::string(static_cast<size_t>(L), static_cast<char>(0xFF));
       std::string k = r.chance(0.7) ? pick_present() : pool[r.below(pool.size())];
-      const size_t p = r.below(static_cast<uint64_t>(deep ? L : std::min(L, 9)));
+      const size_t p = r.below(static_cast<uint64_t>(std::min<size_t>(k.size(), deep ? static_cast<size_t>(L) : 9)));
       const auto y = r.below(4);
       const auto cur = static_cast<unsigned char>(k[p]);
       k[p] = static_cast<char>(y == 0 ? cur + 1 : (y == 1 ? cur - 1 : (y == 2 ? 0x00 : 0xFF)));
       if (r.chance(0.3)) for (size_t q = p + 1; q < k.size(); q++) k[q] = static_cast<char>(r.chance(0.5) ? 0x00 : 0xFF);
+      return k;
+    };
+    // bounds need not have the length of any stored key: a proper prefix of stored keys ("everything starting with ab"),
+    // or a stored key with extra bytes appended
+    auto vary_bound = [&](std::string k) -> std::string {
+      if (!varbound || k.empty()) return k;
+      const auto x = r.below(100);
+      if (x < 35) k.resize(1 + r.below(k.size()));
+      else if (x < 55) { const size_t extra = 1 + r.below(3); for (size_t i = 0; i < extra && k.size() < 60; i++) k.push_back(static_cast<char>(r.chance(0.4) ? 0x00 : (r.chance(0.5) ? 0xFF : static_cast<int>(r.below(256))))); }
       return k;
     };
     for (int i = 0; i < nops; i++) {
@@ -180,8 +217,8 @@ struct SeqEngine final : Engine {
         o.a = r.chance(0.55) ? 1 : 0;
         o.b = r.chance(0.3) ? (r.chance(0.75) ? r.range(1, 6) : r.range(1, static_cast<int64_t>(present.size()) + 2)) : -1;  // halt position: early, or anywhere up to past the end
         o.c = r.chance(0.5) ? 1 : 0;
-        o.key = pick_bound();
-        o.key2 = pick_bound();
+        o.key = vary_bound(pick_bound());
+        o.key2 = vary_bound(pick_bound());
         if (r.chance(0.08)) o.key2 = o.key;
       } else if (x < scan_rate + 0.02) {
         o.kind = S_EMPTY;
@@ -285,6 +322,8 @@ struct SeqEngine final : Engine {
     st.bump(c.knob("keykind", 0) ? "histories_byte_string_keys" : "histories_uint64_keys");
     if (c.knob("nthreads", 1) > 1) st.bump("histories_issued_from_several_threads");
     if (c.knob("deep", 0)) st.bump("histories_deep_byte_string_keys_branching_beyond_byte_8");
+    if (c.knob("varlen", 0)) st.bump("histories_variable_length_byte_string_keys");
+    if (c.knob("varbound", 0) && o.scans) st.bump("histories_scan_bounds_of_other_lengths_than_stored_keys");
     if (focus == 8) res.nontrivial = o.faults_delivered + o.length_errors >= 1;
     else if (focus == 10 || focus == 0) res.nontrivial = kinds >= 3;
     else res.nontrivial = c.threads[0].size() >= 20 && (o.scans > 0 || focus != 2);
